@@ -82,6 +82,7 @@ theorem inorder_leaf_of_nil_aux {t : BTree} {a : Expr} (h : t.inorder = (a, []))
     simp only [BTree.inorder] at h
     have := congrArg (fun p => p.2.length) h
     simp at this
+#assert_axioms inorder_leaf_of_nil_aux
 
 /-- the grouping clause fails on the model of the unchanged code -/
 theorem C10_counterexample : ¬ C10_grouping_full := by
